@@ -145,6 +145,7 @@ def init_programs():
 def check_one(job):
     label, src, mode = job
     st = smt.Stats()
+    smt.STATS = st  # path-feasibility queries of the machines are charged to this job too
     out = {"job": job, "sigs": [], "counts": {}, "status": None}
     opts = dict(initialize_vars=True) if mode == "zero" else {}
     o = classify(src + "\n", **opts)
